@@ -21,7 +21,8 @@ func init() {
 			"C05.5 inbound payloads queued for the application never alias the reusable read buffer: what UDPConn.HandleInbound enqueues is a fresh copy; " +
 			"C05.6 the stream framer's size arithmetic cannot wrap (shared rule C09.1 on the framing functions); " +
 			"C05.8 (=C09.3/C10.1p) the stream de-framer returns exactly the bytes it buffered for the frame and advances its own buffer by that amount; " +
-			"C05.7 the client writes the complete encoded ChannelData (header, payload, padding) of a literal built from the caller's payload and channel number.",
+			"C05.7 the client writes the complete encoded ChannelData (header, payload, padding) of a literal built from the caller's payload and channel number; " +
+			"C05.9 a receive loop's reused buffer does not outlive the iteration: no alias of it is handed to a goroutine, sent on a channel or captured.",
 		NotCovered: "exactly-once delivery, byte equality beyond provenance, ChannelData padding arithmetic modulo 4 (see C11), duplication by the network.",
 		Run:        runC05,
 	})
@@ -302,6 +303,7 @@ func runC05(c *Ctx) {
 
 	// ---- C05.8 the stream de-framer hands out what it buffered, from its own storage
 	ruleProgress(c, "C05.8")
+	ruleReadBufferStaysInIteration(c, "C05.9")
 
 	// ---- C05.7 client → server ChannelData is written whole
 	c.Rule("C05.7", "client ChannelData: what (*UDPConn).sendChannelData writes to the server is the complete Raw of a ChannelData literal {Data: the caller's payload, Number: the caller's channel number} on which Encode() was called — not a slice of it (the padding delimits the message on a stream transport, and the client cannot tell the transport from the server address)", 1)
@@ -557,5 +559,157 @@ func ruleInboundCopy(c *Ctx, rule string) {
 		c.OK(rule, fname(fn), "queued payload", w.pos(fn.Pos()), "a fresh make()d slice filled by copy() from the argument")
 	} else {
 		c.Bad(rule, fname(fn), "queued payload", w.pos(fn.Pos()), bad)
+	}
+}
+
+// ruleReadBufferStaysInIteration (C05.9): a receive loop that reads every datagram into one
+// buffer allocated outside the loop owns the bytes only until the next read. Anything that
+// aliases that buffer — a slice of it, a struct value or variable holding such a slice —
+// must be consumed within the iteration: it is not handed to a `go` statement (as argument
+// or captured variable), sent on a channel, or stored into the heap. Otherwise the next
+// datagram overwrites a payload that is still being processed or waiting to be sent: data is
+// altered, duplicated, or crosses over to another client's session.
+func ruleReadBufferStaysInIteration(c *Ctx, rule string) {
+	w := c.W
+	c.Rule(rule, "read-buffer lifetime: in every loop that reads with Read/ReadFrom into a buffer allocated outside the loop, no alias of that buffer (slice, struct value or local variable holding one) is passed to or captured by a go statement, sent on a channel, or stored through a pointer that outlives the iteration", 2)
+	n := 0
+	for _, fn := range w.ModFns {
+		if fn.Synthetic != "" {
+			continue
+		}
+		w.eachInstr(fn, func(in ssa.Instruction) {
+			call, ok := in.(*ssa.Call)
+			if !ok || !call.Call.IsInvoke() || (call.Call.Method.Name() != "ReadFrom" && call.Call.Method.Name() != "Read") {
+				return
+			}
+			if !blockReaches(call.Block(), call.Block()) {
+				return // not in a loop
+			}
+			buf := ioBuffer(call)
+			if buf == nil {
+				return
+			}
+			var root ssa.Value = stripIface(w.resolveLoad(buf))
+			for {
+				sl, isSl := root.(*ssa.Slice)
+				if !isSl {
+					break
+				}
+				root = stripIface(w.resolveLoad(sl.X))
+			}
+			ri, isI := root.(ssa.Instruction)
+			if !isI || ri.Parent() != fn {
+				return // a parameter or field: the caller's buffer (its own loop is judged there)
+			}
+			switch root.(type) {
+			case *ssa.MakeSlice, *ssa.Alloc:
+			default:
+				return
+			}
+			if ri.Block() == call.Block() || blockReaches(call.Block(), ri.Block()) {
+				return // allocated per iteration
+			}
+			n++
+			c.Anchor(rule, fname(fn))
+			// aliases of the buffer inside fn (forward closure over slices, conversions,
+			// stores into local variables / struct fields, loads of those)
+			alias := map[ssa.Value]bool{root: true}
+			for changed := true; changed; {
+				changed = false
+				mark := func(v ssa.Value) {
+					if v != nil && !alias[v] {
+						alias[v] = true
+						changed = true
+					}
+				}
+				w.eachInstr(fn, func(i2 ssa.Instruction) {
+					switch x := i2.(type) {
+					case *ssa.Slice:
+						if alias[x.X] {
+							mark(x)
+						}
+					case *ssa.ChangeType:
+						if alias[x.X] {
+							mark(x)
+						}
+					case *ssa.Convert:
+						if alias[x.X] {
+							if _, isSl := x.Type().Underlying().(*types.Slice); isSl {
+								mark(x)
+							}
+						}
+					case *ssa.MakeInterface:
+						if alias[x.X] {
+							mark(x)
+						}
+					case *ssa.Phi:
+						for _, e := range x.Edges {
+							if alias[e] {
+								mark(x)
+							}
+						}
+					case *ssa.Store:
+						if alias[x.Val] {
+							// the variable (or the local struct a field of which) now holds an alias
+							if al, _ := allocBase(x.Addr); al != nil {
+								mark(al)
+							} else if a2, isAl := x.Addr.(*ssa.Alloc); isAl {
+								mark(a2)
+							}
+						}
+					case *ssa.UnOp:
+						if x.Op == token.MUL {
+							if al, _ := allocBase(x.X); al != nil && alias[al] {
+								if _, isPtr := x.Type().Underlying().(*types.Basic); !isPtr {
+									mark(x)
+								}
+							} else if a2, isAl := x.X.(*ssa.Alloc); isAl && alias[a2] {
+								mark(x)
+							}
+						}
+					case *ssa.Field:
+						if alias[x.X] {
+							if _, isB := x.Type().Underlying().(*types.Basic); !isB {
+								mark(x)
+							}
+						}
+					}
+				})
+			}
+			bad := ""
+			w.eachInstr(fn, func(i2 ssa.Instruction) {
+				if bad != "" {
+					return
+				}
+				switch x := i2.(type) {
+				case *ssa.Go:
+					for _, a := range x.Call.Args {
+						if alias[a] {
+							bad = "passed to the goroutine started at " + w.instrPos(i2)
+						}
+					}
+					if mc, isMC := x.Call.Value.(*ssa.MakeClosure); isMC {
+						for _, b := range mc.Bindings {
+							if alias[b] {
+								bad = "captured by the goroutine started at " + w.instrPos(i2)
+							}
+						}
+					}
+				case *ssa.Send:
+					if alias[x.X] {
+						bad = "sent on a channel at " + w.instrPos(i2)
+					}
+				}
+			})
+			if bad == "" {
+				c.OK(rule, fname(fn), "read buffer", w.instrPos(in), "every alias of the buffer is consumed before the next read")
+			} else {
+				c.Bad(rule, fname(fn), "read buffer", w.instrPos(in), "the receive buffer of this loop (or a value holding a slice of it) is "+bad+" while the loop goes on to read the next datagram into the same bytes: a payload still being processed or waiting to be forwarded is overwritten — data is altered, duplicated, or delivered on another client's session")
+			}
+		})
+	}
+	if n < 2 {
+		c.Anchor(rule, "-")
+		c.Bad(rule, "-", "read buffer", "-", fmt.Sprintf("only %d receive loops with a reused buffer found (server read loop and relay read loop expected): anchor gone", n))
 	}
 }
